@@ -270,6 +270,36 @@ def r4_masterkey(ctx, prog):
                     r.violation(g['qname'], site, 'the masked master key is written outside remask/logout', file=g['file'], line=tgt['l'])
 
 
+def r6_pin_bytes(ctx, prog):
+    """The PIN the token layer authenticates / installs is the caller's buffer, all of it: every ByteString built from a PIN pointer parameter takes exactly the length parameter that
+    accompanies it (a clamped, rounded or swapped length makes different PINs equivalent)."""
+    r = ctx.rule('C04.R6', 'the PIN handed on is the caller\'s buffer in full', floor=5, engine='E2 value following')
+    for fname in ('SoftHSM::C_Login', 'SoftHSM::C_InitPIN', 'SoftHSM::C_SetPIN', 'SoftHSM::C_InitToken'):
+        f = prog.fn(fname)
+        ctx.analysed(f)
+        pairs = {}
+        ps = f['params']
+        for i, pp in enumerate(ps[:-1]):
+            if 'CK_UTF8CHAR_PTR' in (pp.get('type') or '') and 'CK_ULONG' in (ps[i + 1].get('type') or ''):
+                pairs[pp['var']['name']] = ps[i + 1]['var']['name']
+        o = Outcomes(f, prog, cenv={'isInitialised': 1}, record_calls={'ctor ByteString'})
+        o.CAP = 64
+        o.go()
+        r.paths += len(o.outcomes)
+        evs = sorted({e for oc in o.outcomes for e in oc['events'] if e[0] == 'call' and len(e[2]) == 2}, key=lambda e: e[3])
+        for ptr, ln in sorted(pairs.items()):
+            site = 'ByteString(%s, %s)' % (ptr, ln)
+            mine = [e for e in evs if ptr in re.findall(r'\w+', e[2][0])]
+            bad = [e for e in mine if e[2][1] != ln or e[2][0] != ptr]
+            if not mine:
+                r.undecided(fname, site, 'no byte string is built from this PIN parameter', file=f['file'], line=f['line'])
+            elif bad:
+                r.violation(fname, site, 'the PIN is copied as ByteString(%s, %s) (line %s) instead of the caller\'s %s bytes at %s: PINs that differ outside that range are treated as equal' % (bad[0][2][0], bad[0][2][1], bad[0][3], ln, ptr),
+                            file=f['file'], line=bad[0][3])
+            else:
+                r.ok(fname, site, 'line %s' % mine[0][3], file=f['file'], line=mine[0][3])
+
+
 def run(ctx):
     prog = ctx.prog('ossl-file')
     r1_roles(ctx, prog)
@@ -278,9 +308,12 @@ def run(ctx):
     r4_masterkey(ctx, prog)
     from rules import c14
     c14.r2_createtoken(ctx, prog, rule_id='C04.R5')
+    r6_pin_bytes(ctx, prog)
 
 
 MUTANTS = [
+    dict(name='setpin-old-pin-with-new-length', rule='C04.R6', file='src/lib/SoftHSM.cpp', after='CK_RV SoftHSM::C_SetPIN(',
+         old='ByteString oldPIN(pOldPin, ulOldLen);', new='ByteString oldPIN(pOldPin, ulNewLen);'),
     dict(name='setuserpin-persists-old-managers-blob', rule='C04.R2', file='src/lib/slot_mgr/Token.cpp', after='CK_RV Token::setUserPIN(ByteString& oldPIN, ByteString& newPIN)',
          old='\tif (token->setUserPIN(newSdm->getUserPINBlob()) == false)', new='\tif (token->setUserPIN(sdm->getUserPINBlob()) == false)'),
     dict(name='initpin-no-state-test', rule='C04.R1', file='src/lib/SoftHSM.cpp', after='CK_RV SoftHSM::C_InitPIN(',
